@@ -1,5 +1,5 @@
 """Check table, verdict logic, evidence writing."""
-import json, os, sys, time, subprocess
+import json, os, sys, time, subprocess, re
 import vlib
 from vlib import ROOT, WORK, die
 
@@ -66,11 +66,11 @@ CHECKS = {
         assumptions=["reference encoder defines the value's length", "depth counts values entered, leaf included"],
     ),
     "C09": dict(
-        engine="vrt", level="fault_enumeration", quick_cap=280, thorough_cap=3600,
+        engine="vrt", parts=["vrt", "gen:tsem"], level="fault_enumeration", quick_cap=280, thorough_cap=3600,
         rule=("Runtime level. Seeds = reference encodings of all depth<=1 shapes, their depth-2 wrappers [thorough: all depth<=2 "
               "shapes] and payload/length-boundary values, per wire protocol {binary, binary-LE, compact}. Faults enumerated "
               "completely per seed: every truncation length; every annotated length/count/field-id/type position overwritten with "
-              "each of {-1,0,1,rem-1,rem,rem+1,2^31-1,2^31-16,2^24,-2^31} (own integer encoding; compact additionally over-long "
+              "each of {-1,0,1,rem-1,rem,rem+1,2^31-1,2^31-16,2^24,-2^31} for lengths and {-1,0,1,rem-1,rem,rem+1,2^27,2^24,2^16,-2^31} for element counts (own integer encoding; compact additionally over-long "
               "and unterminated varints) resp. 7 field ids resp. 18 type bytes; every single-bit flip (seeds <=12 bytes quick, all "
               "thorough); plus ALL byte strings of length<=2 and all strings of length 3..4 [5] over a 12-byte alphabet, each read "
               "as struct/list/map/binary/set/i32. Targets: typed reads (plain and generated-code-like call sequence, all four "
@@ -81,7 +81,7 @@ CHECKS = {
                      "covers", "async readers are driven with the deliver-everything schedule here; schedules are C12's subject"],
     ),
     "C11": dict(
-        engine="vrt", level="exploration", quick_cap=280, thorough_cap=3600,
+        engine="vrt", parts=["vrt", "gen:tsem"], level="exploration", quick_cap=280, thorough_cap=3600,
         rule=("Runtime level. The C01 value spaces (a)(b)(c) (shapes to depth 2 + narrow depth 3 [full depth 3 thorough], scalar "
               "sweeps with payloads on both sides of 4096, field-id neighbourhoods) and (d) back-to-back pairs. Writer: the "
               "unchecked writer gets a window of exactly the reported size (+64 painted sentinel bytes) over BytesMut, LinkedBytes "
@@ -96,7 +96,7 @@ CHECKS = {
                      "and not guaranteed to be observed (thorough tier of the generated half adds valgrind)"],
     ),
     "C12": dict(
-        engine="vrt", level="model_checking", quick_cap=280, thorough_cap=3600,
+        engine="vrt", parts=["vrt", "gen:tsem"], level="model_checking", quick_cap=280, thorough_cap=3600,
         rule=("Runtime level. Inputs per wire protocol {binary, binary-LE, compact}: reference encodings of all depth<=1 shapes "
               "(+15-element containers), their depth-2 wrappers and boundary scalars as struct fields, each followed by 16 trailing "
               "bytes; every truncation of every encoding <=40 bytes; every length/count position overwritten with "
@@ -138,6 +138,38 @@ CHECKS = {
               "default-bearing field, empty value for required fields without default, absent otherwise); must equal "
               "decode(empty struct) re-encoded whenever that decode succeeds. distinct_nontrivial = structs checked."),
         assumptions=["expected defaults come from lib/corpus.py, not from pilota"],
+    ),
+    "C08": dict(
+        engine="gen:tsem", level="exploration", quick_cap=280, thorough_cap=3600,
+        rule=("Reader schemas = every struct and union of the semantic corpus (keep off). Writer values = the reader's minimal and "
+              "rich value (unions: up to 4 variants) with every single edit: an unknown field of each of 24 payloads (every wire "
+              "type incl. nested struct, containers of structs/doubles, 300-byte binary) at every position (first/middle/last for "
+              "wide structs in quick) with ids below / between / above the declared ones; each field removed; each field retyped "
+              "to every other wire type; all field permutations (<=4 fields; reversal and rotation beyond); unknown fields inside "
+              "nested known structs; unions: two known variants, an unknown variant alone (12 payloads), nothing, the variant "
+              "retyped. x 4 sync protocols (unchecked at a guard page) + 3 async. Oracle = a reference tolerant reader over dynamic "
+              "values: known (id, wire type) pairs decode identically, everything else is ignored, missing required => error, "
+              "union with 0 known variants => error unless it is a void result, >1 => error; defaults filled."),
+        assumptions=["retyping of an ELEMENT type inside a container is outside the statement and not generated",
+                     "the reference tolerant reader (engines/vgenrun/src/tchecks2.rs TolReader) is the oracle"],
+    ),
+    "C13": dict(
+        engine="gen:tsem", level="exploration", quick_cap=280, thorough_cap=3600,
+        rule=("Every struct of the semantic corpus compiled with keep_unknown_fields. Writer values = minimal and rich value plus "
+              "one extra field (24 payloads of every wire type x every position), two extra fields (front/front, front/back, "
+              "back/back), extras inside nested structs, list elements and map values. Decoded with {checked binary, unchecked "
+              "binary at a guard page}, re-encoded with both; oracle: the reference decoder recovers every writer field (known "
+              "with defaults filled + every unknown, byte-equal values), size() == bytes written, and the known fields equal those "
+              "of the same IDL compiled without retention."),
+        assumptions=["types in pilota's 'args' set are tagged [arg-type+retention] (recorded finding)"],
+    ),
+    "C19": dict(
+        engine="gen:tsem", level="fault_enumeration", quick_cap=280, thorough_cap=3600,
+        rule=("For a rich and a minimal value of every generated type (keep off/on) x {binary, binary-LE, compact}: every "
+              "truncation [thorough: and every annotated length/count/id/type overwrite (C09 fault values)]; cases whose decode returns Err are "
+              "run three times (warm-up + 2 measured) x {sync, async}: live heap bytes after dropping the error and the input must "
+              "equal live bytes before on both measured runs (a real leak repeats, lazy statics do not)."),
+        assumptions=["counting global allocator (vcore::alloc); the harness drops its own response before measuring"],
     ),
 }
 
@@ -224,13 +256,15 @@ def sig_listed(known, sig):
             return f
         # a finding may name a construct tag computed by the harness from the IDL (e.g.
         # "C02[arg-type+retention]|"): every failure carrying that tag is the same recorded defect
+        if f.get("signature_regex") and re.match(f["signature_regex"], sig):
+            return f
         for pre in ([f["signature_prefix"]] if f.get("signature_prefix") else []) + f.get("signature_prefixes", []):
             if sig.startswith(pre):
                 return f
     return None
 
 
-DEATH_TAGS = {0: "", 1: "[arg-type+retention]"}
+DEATH_TAGS = {0: "", 1: "[arg-type+retention]", 2: "[union-variant-type]", 3: "[recursion-depth]"}
 
 
 def engine_bin(engine, tier):
@@ -300,7 +334,7 @@ def verdict(pid, tier, seed, c, m, wall, build_s):
         g[2] += f["count"]
     for k, nsig, nexec in grouped.values():
         print("KNOWN-FINDING: property=%s %s [%s; %d signatures, %d failing executions]"
-              % (pid, k.get("description", ""), k.get("signature") or k.get("signature_prefix") or ",".join(k.get("signature_prefixes", [])), nsig, nexec))
+              % (pid, k.get("description", ""), k.get("signature") or k.get("signature_regex") or k.get("signature_prefix") or ",".join(k.get("signature_prefixes", [])), nsig, nexec))
     if violations:
         os.makedirs(rdir, exist_ok=True)
     for sig, f in violations:
